@@ -15,7 +15,7 @@ from .world import build_labware, build_worklist
 
 
 class Outcome:
-    __slots__ = ("ok", "exc_type", "exc", "new_records", "lines", "injected", "fired_at")
+    __slots__ = ("ok", "exc_type", "exc", "new_records", "lines", "injected", "fired_at", "result")
 
     def __init__(self):
         self.ok = True
@@ -25,6 +25,7 @@ class Outcome:
         self.lines = 0
         self.injected = False
         self.fired_at = None
+        self.result = None
 
 
 def classify(rt, exc):
@@ -76,9 +77,9 @@ class Session:
                 k, kind = inject if inject is not None else (None, "interrupt")
                 inj = LineInjector(k, kind)
                 with inj:
-                    opsmod.exec_op(self.rt, self.wl, self.labs, op)
+                    out.result = opsmod.exec_op(self.rt, self.wl, self.labs, op)
             else:
-                opsmod.exec_op(self.rt, self.wl, self.labs, op)
+                out.result = opsmod.exec_op(self.rt, self.wl, self.labs, op)
         except BaseException as e:  # noqa: B902 - the abort, whatever class it has by now
             if isinstance(e, (SystemExit, GeneratorExit)):
                 raise
